@@ -38,6 +38,9 @@ SYNTAXES = {
     "blockbr": dict(bs="[[", be="]]", vs="${", ve="}", cs="[#", ce="#]"),
     "parens": dict(bs="((", be="))", vs="{{", ve="}}", cs="(#", ce="#)"),
     "latex": dict(bs="\\BLOCK{", be="}", vs="\\VAR{", ve="}", cs="\\#{", ce="}"),
+    # the variable start string is a proper prefix of the block and comment start strings
+    "prefixvar": dict(bs="{%", be="%}", vs="{", ve="}", cs="{#", ce="#}"),
+    "dollar": dict(bs="$%", be="%$", vs="$", ve="$", cs="$#", ce="#$"),
 }
 _ORIGINAL_SIX = ["default", "php", "erb", "brackets", "three", "ops"]
 SYN_NAMES = list(SYNTAXES)
@@ -62,12 +65,14 @@ def env_kwargs(syn):
 
 
 PH_BS, PH_BE, PH_VS, PH_VE, PH_CS, PH_CE = "\ue000", "\ue001", "\ue002", "\ue003", "\ue004", "\ue005"
+PH_CE0, PH_BE0, PH_VE0 = "\ue006", "\ue007", "\ue008"  # the FIRST character of an end delimiter (a partial end delimiter)
 _PH = {PH_BS: "bs", PH_BE: "be", PH_VS: "vs", PH_VE: "ve", PH_CS: "cs", PH_CE: "ce"}
-_PH_RE = re.compile("[\ue000-\ue005]")
+_PH0 = {PH_CE0: "ce", PH_BE0: "be", PH_VE0: "ve"}
+_PH_RE = re.compile("[\ue000-\ue008]")
 
 
 def subst(body, syn):
-    return _PH_RE.sub(lambda m: syn[_PH[m.group()]], body)
+    return _PH_RE.sub(lambda m: syn[_PH[m.group()]] if m.group() in _PH else syn[_PH0[m.group()]][0], body)
 
 
 # look-alikes of every configuration, padded so that junctions cannot create a delimiter
@@ -109,7 +114,7 @@ def instantiate(sk, syn):
             out.append(["text", "a " + syn["ls"] + " b" if syn.get("ls") else "a b"])
         elif k == "comment":
             body = subst(seg[3], syn)
-            if syn["ce"] in body or body[:1] in "+-" or body[-1:] in "+-" or body == "":
+            if (body + syn["ce"]).find(syn["ce"]) != len(body) or body[:1] in "+-" or body[-1:] in "+-" or body == "":
                 body = " c "
             out.append(["comment", seg[1], seg[2], body])
         elif k == "raw":
@@ -167,10 +172,10 @@ def source(csk, syn):
 # ------------------------------------------------------------------------------------------
 # alphabets
 
-COMMON_WS = ["a", "b", "x", " ", "  ", "\t", "\n", "\r\n", "\r", "\n\n", " \n ", "\n  ", "é", "\x0c", "\x1f", "\xa0",
+COMMON_WS = ["\ufeff", "\u200b", "a", "b", "x", " ", "  ", "\t", "\n", "\r\n", "\r", "\n\n", " \n ", "\n  ", "é", "\x0c", "\x1f", "\xa0",
              "\u2028", "\x0b", "\x85", "-", "+", " ", "\n", "\t"]
 # characters occurring in no delimiter / prefix of any configuration
-ALPHA_X = ["a", "b", "x", " ", "  ", "\t", "\n", "\r\n", "\r", "\n\n", " \n ", "\n  ", "é", ".", ",", ":", ";", "_", "'", '"',
+ALPHA_X = ["\ufeff", "\u200b", "a", "b", "x", " ", "  ", "\t", "\n", "\r\n", "\r", "\n\n", " \n ", "\n  ", "é", ".", ",", ":", ";", "_", "'", '"',
            "&", "|", "~", "^", "\\", "+", "\x0c", "\xa0", " ", "\n"]
 ALPHA_X_INLINE = [a for a in ALPHA_X if "\n" not in a and "\r" not in a]
 
@@ -188,8 +193,9 @@ def alpha_ws(syn):
     fc = _first_chars(syn)
     atoms = list(COMMON_WS)
     prefix_fc = {syn[k][0] for k in ("ls", "lc") if syn.get(k)}
+    starts = [syn[k] for k in ("bs", "vs", "cs")]
     for c in sorted({syn[k][0] for k in ("bs", "vs", "cs")}):
-        if c not in prefix_fc:
+        if c not in prefix_fc and not any((c + " ").startswith(d) for d in starts):
             atoms.append(c + " ")  # a start character followed by a safe character
             atoms.append(c + "\n")
     if syn.get("ls"):  # the prefix after other text on the line is plain text
@@ -220,9 +226,9 @@ BLOCK_PAIRS = [("for r in [[1, 2]]", "endfor"), ("if {'a': {'b': 1}}", "endif"),
                ("with z = 2", "endwith"), ("if v == 'V'", "endif")]
 BLOCK_PAIRS_ML = [("if true\n", "endif"), ("for q in [\n1]", "endfor"), ("with z =\n\n2", "\nendwith")]
 
-COMMENT_BODIES = [" ", " c ", "\n c\n", "c", " " + PH_VS + " x " + PH_VE + " ", " " + PH_BS + " if " + PH_BE + " ", " " + PH_CS + " ",
+COMMENT_BODIES = [" note " + PH_CE0, PH_CE0, " a " + PH_CE0 + " b " + PH_CE0 + PH_CE0, " x" + PH_BE0, " y " + PH_VE0 + PH_CE0, " ", " c ", "\n c\n", "c", " " + PH_VS + " x " + PH_VE + " ", " " + PH_BS + " if " + PH_BE + " ", " " + PH_CS + " ",
                   " a- ", " +b ", "\t", " \n", " " + PH_BS + " endraw ", "é", "\r\n c \r", " " + PH_BS + "- raw -" + PH_BE + " "]
-RAW_BODIES = ["", " r ", "\n r \n", "\n  ", "  \n", PH_VS + " x " + PH_VE, PH_BS + " if " + PH_BE, PH_CS + " c " + PH_CE, " " + PH_BS,
+RAW_BODIES = [" r " + PH_BE0, PH_BS[:0] + " q " + PH_CE0 + PH_BE0, "", " r ", "\n r \n", "\n  ", "  \n", PH_VS + " x " + PH_VE, PH_BS + " if " + PH_BE, PH_CS + " c " + PH_CE, " " + PH_BS,
               "\r\n x \r", " " + PH_BS + " endraw ", PH_CE, "-", "+ ", "\n  " + PH_VS + "- x -" + PH_VE + "  \n", " \t", "\n"]
 RAW_BODIES_PLAIN = [b for b in RAW_BODIES if not _PH_RE.search(b)]
 LOOKALIKE_RE = _PH_RE
@@ -433,7 +439,7 @@ def _defuse(s):
 def long_texts(max_size=2000):
     chars = st.one_of(
         st.characters(exclude_categories=["Cs"]),
-        st.sampled_from(["\n", "\r", "\r\n", " ", "\t", "{", "}", "%", "#", "\x0c", "\x85", "\u2028", " ", "\x00", "\x1c"]),
+        st.sampled_from(["\ufeff", "\ufffe", "\u200b", "\u2029", "\n", "\r", "\r\n", " ", "\t", "{", "}", "%", "#", "\x0c", "\x85", "\u2028", " ", "\x00", "\x1c"]),
     )
     sizes = st.one_of(st.lists(chars, max_size=40), st.lists(chars, min_size=40, max_size=max_size // 4),
                       st.lists(chars, min_size=max_size // 4, max_size=max_size))
